@@ -5,12 +5,16 @@ import fabric_corr
 def explore(run, lean):
     fabric_corr.explore(run, "C08", 200 if run.tier == "quick" else 4000)
     fabric_corr.explore_fe_order(run, 200 if run.tier == "quick" else 5000)
+    fabric_corr.explore_heap(run, 150 if run.tier == "quick" else 4000)
     run.extra["rule"] = ("scenarios: 1-4 subscriber queues (plain deques and active-object LockingDeques, several of them empty = equal "
                          "contents), one or two client threads issuing subscribe/publish/start/stop/clear/is_alive (start/stop/clear "
                          "from one thread only); half of them structured (subscribe*, publish* before the first start = maximal "
                          "delivery lag); run under the deterministic scheduler with PCT / random choosers; the recorded schedule is "
                          "replayed on the Lean model and compared per step and on the final registry, queue contents, thread counts")
-    run.assumptions.append("queue.PriorityQueue.get returns the minimum for FabricEvent.__lt__; GIL atomicity of each Queue primitive")
+    run.assumptions.append("queue.PriorityQueue put/get = heapq.heappush/heappop as transcribed in Data/Heap.lean (array layouts compared "
+                           "on every operation of the heap stream); GIL atomicity of each Queue primitive")
+    ROUND6_RULE = '; heap stream: put/get sequences on a real PriorityQueue of real FabricEvents, array layout compared with the Lean heap model after every operation; heap condition of the fabric queues checked after every replay'
+    run.extra["rule"] += ROUND6_RULE
 
 
 def replay(case):
